@@ -229,7 +229,12 @@ func (s *fsm12) finish(ctx context.Context, c Conn) (State, error) {
 	select {
 	case state := <-c.RecvHandshake():
 		close(state.Done)
-		if s.state.IsClient {
+		// Only the side that sent the last flight of the handshake answers a
+		// peer retransmission by sending that flight again: the server after
+		// a full handshake (Flight6), the client after a resumed one
+		// (Flight5b). Its peer completed on receiving that flight and has
+		// nothing left to repeat.
+		if !s.currentFlight.IsLastSendFlight() {
 			return StateFinished, nil
 		}
 
